@@ -114,6 +114,13 @@ def replay_case(args):
     until = dtm.datetime(year + 1, 1, 1)
     w0 = until - dtm.timedelta(minutes=case['H'])
     vals = [tuple(v) for v in case['vals']]
+    # optional rendering of the model's abstract values as other concrete offsets with the same equalities (e.g. two UTC
+    # offsets exactly one day apart); items are reported in the abstract values again
+    vmap = case.get('map')
+    inv = {}
+    if vmap:
+        inv = {tuple(v): tuple(int(x) for x in k.split(',')) for k, v in vmap.items()}
+        vals = [tuple(vmap['%d,%d' % v]) for v in vals]
     tz = StepTz(vals[0], [(w0 + dtm.timedelta(minutes=c), vals[k + 1]) for k, c in enumerate(case['chg'])])
     try:
         tr = g._find_transitions(tz)
@@ -125,7 +132,7 @@ def replay_case(args):
         items_map = {}
         g._add_test_items_for_transitions(items_map, tz)
         base = int((w0.replace(tzinfo=UTC) - E2000).total_seconds())
-        items = sorted([int((e - base) // 60), it['type'], it['total_offset'] // 60, it['dst_offset'] // 60] for e, it in items_map.items())
+        items = sorted([int((e - base) // 60), it['type']] + list(inv.get((it['total_offset'] // 60, it['dst_offset'] // 60), (it['total_offset'] // 60, it['dst_offset'] // 60))) for e, it in items_map.items())
         return {'recorded': rec, 'items': items}
     except Exception as e:
         return {'error': '%s: %s' % (type(e).__name__, e)}
